@@ -1,13 +1,13 @@
 (* C27 — Caching producer reference-counts opens (after the repair fixes/C27.patch).
    Only theorem statements, each closed by [exact <lemma>], Examples, Print Assumptions.
-   Model: model/CachedProducer.v ([wrap] = Wrap, [wrap_all] = WrapAll, both over the shared
-   openDB); specification: spec/CachedProducerSpec.v (a predicate on observable traces).
+   Model: model/CachedProducer.v ([wrap] = Wrap, [wrap_all] = WrapAll: two different initial
+   states, each built from its constructor's own composite literal, over the shared openDB); specification: spec/CachedProducerSpec.v (a predicate on observable traces).
    A trace item is (operation, result, underlying producer/store calls).  [balance name pre] =
    successful opens - successful closes of name in the prefix, [cur name pre] = the store
    created by the latest underlying OpenDB(name).  Histories are by-name: Close/Drop go to the
    handle most recently returned for the name. *)
 From Coq Require Import NArith List Bool.
-From LV Require Import model.CachedProducer spec.CachedProducerSpec proofs.CachedProducerProofs proofs.CachedProducerOnce.
+From LV Require Import model.CachedProducer spec.CachedProducerSpec proofs.CachedProducerProofs proofs.CachedProducerOnce proofs.CachedProducerDrop.
 Import ListNotations.
 Local Open Scope N_scope.
 
@@ -76,11 +76,28 @@ Theorem C27_not_droppable_again_before_next_open :
   droppable name (pre ++ (CDrop name, ROk, ev) :: mid) = false.
 Proof. exact droppable_after_drop. Qed.
 
+(* the same sentence per underlying store: the number of underlying Drop calls on a store u is
+   at most the number of OpenDB(name) calls (fresh, cached or failed) made while u is the store
+   behind name; stores never opened are never dropped.  "Per open" therefore means per OpenDB
+   CALL: a cached or failed OpenDB re-arms Drop, exactly as `c.notDropped[name] = true` at the
+   top of openDB does (Example drop_rearmed_by_failed_and_cached_open in proofs). *)
+Theorem C27_drops_per_store_at_most_open_calls :
+  forall s0 ops, s0 = wrap \/ s0 = wrap_all -> forallb by_name_op ops = true ->
+  (forall n u, In (n, u) (uopens (snd (crun s0 ops))) ->
+     (ndrops u (snd (crun s0 ops)) <= opens_while n u (snd (crun s0 ops)))%nat) /\
+  (forall u, (forall n, ~ In (n, u) (uopens (snd (crun s0 ops)))) -> ndrops u (snd (crun s0 ops)) = 0%nat).
+Proof. exact drops_per_open_all_histories. Qed.
+
 (* no history at all (stale handles included) panics or blocks after the repair *)
 Theorem C27_never_panics :
-  forall ops s s' tr, dead s = false -> ref_nil s = false -> crun s ops = (s', tr) ->
+  forall ops s s' tr, alive s -> crun s ops = (s', tr) ->
   forall o r ev, In (o, r, ev) tr -> r <> RPanic /\ r <> RDead.
 Proof. exact never_panics. Qed.
+
+(* the two constructors are two different initial states (each built from its own composite
+   literal, [construct kind maps]); both initialise all three maps *)
+Theorem C27_both_constructors_initialise_all_maps : alive wrap /\ alive wrap_all /\ wrap <> wrap_all.
+Proof. exact ctors_alive. Qed.
 
 (* non-vacuity: a history with a cached open, a counted-down close, the real close, an
    over-close, a guarded second drop and a re-open with a fresh store *)
@@ -89,7 +106,7 @@ Example C27_ex_history :
   [(COpen 0 false, RHandle 0, [UOpen 0 0]); (COpen 0 false, RHandle 0, []); (CClose 0, ROk, []);
    (CDrop 0, ROk, [UDrop 0]); (CDrop 0, ROk, []); (CClose 0, ROk, [UClose 0]); (CClose 0, ROverClose, []);
    (COpen 0 false, RHandle 1, [UOpen 0 1])] /\
-  dead wrap = false /\ ref_nil wrap = false /\ dead wrap_all = false /\ ref_nil wrap_all = false.
+  kind wrap = KWrap /\ kind wrap_all = KWrapAll.
 Proof. vm_compute. repeat split; reflexivity. Qed.
 
 Print Assumptions C27_trace_spec_all_histories.
@@ -100,4 +117,6 @@ Print Assumptions C27_each_store_closed_at_most_once.
 Print Assumptions C27_over_close_touches_nothing.
 Print Assumptions C27_drop_reaches_underlying_iff_droppable.
 Print Assumptions C27_not_droppable_again_before_next_open.
+Print Assumptions C27_drops_per_store_at_most_open_calls.
 Print Assumptions C27_never_panics.
+Print Assumptions C27_both_constructors_initialise_all_maps.
